@@ -1,7 +1,7 @@
 """Per-property checks: proof status + correspondence on the property's projection + oracle on the
 implementation's real traces."""
 import os, sys, json, time
-import vlib, corr
+import vlib, corr, gen
 from vlib import proof_status, corr_run, iter_real, case_script, finish, proof_violation, corr_violations
 
 QUICK_SUITES = ['basic', 'chain', 'env', 'fault', 'rand', 'chunk']
@@ -254,3 +254,393 @@ def check_C14(tier, seed, t0):
                       ["theorems are about Pure/Color.v (transcription of src/color.rs); tie = pure correspondence (every finite table, all Rgb565/Rgb555 values, Rgb888 sweeps: step 5 quick / exhaustive thorough)",
                        "the property's clauses are also evaluated directly on the real crate's finite tables (%d entries) each run" % ntab],
                       extra_viol=extra)
+
+# ---------------------------------------------------------------------------------------------- wire properties
+import oracle as oracle_mod
+ENTRY_OPS = ['update_frame', 'update_and_display_frame', 'update_color_frame', 'update_achromatic_frame', 'update_chromatic_frame',
+             'update_old_frame', 'update_new_frame', 'update_and_display_new_frame', 'set_partial_base_buffer',
+             'update_and_display_frame_base']
+PARTIAL_OPS = ['update_partial_frame', 'update_partial_old_frame', 'update_partial_new_frame', 'clear_partial_frame',
+               'update_partial_frame2', 'update_partial_achromatic_frame', 'update_partial_chromatic_frame',
+               'display_partial_frame', 'shift_display', 'display_frame_partial']
+WIRE = {
+ # property: (projections of the correspondence it depends on, ops (None = all), description of the tie)
+ 'C01': (['frames'], ENTRY_OPS + ['display_frame', 'new'], "frames projection (commands + data, contents included) of every full-frame entry point, display_frame and new"),
+ 'C02': (['addr'], None, "addressing projection (window / counter / entry-mode / partial-window / resolution frames, RAM commands with their lengths, resets) of every operation"),
+ 'C05': (['busy'], None, "busy projection (every poll with its answer, every delay, resets, busy-raising / RAM / refresh commands) of every operation under generated busy streams and delay settings"),
+ 'C06': (['frames'], PARTIAL_OPS, "frames projection of every partial entry point (boundary, malformed and canonical windows)"),
+ 'C07': (['frames'], ['clear_frame', 'set_background_color', 'background_color'], "frames projection of clear_frame in every colour"),
+ 'C08': (['frames+rst'], ['sleep', 'wake_up', 'new'], "frames + RST projection of sleep, wake_up and new"),
+ 'C09': (['power'], None, "power projection (resets, every configuration / power / sleep command, refresh triggers) of every operation"),
+ 'C11': (['rst'], None, "reset projection (RST edges, the delays that follow them, position of SPI traffic) of every operation"),
+ 'C17': (['lut'], None, "waveform projection (every table upload with its bytes) of every operation"),
+ 'C18': (['cmdlen'], None, "protocol projection (every command with its parameter count, geometry / sleep blocks with their bytes) of every operation"),
+}
+PROPNUM = {'C%02d' % i: i for i in range(1, 19)}
+
+def oracle_violations(prop, orc):
+    viol = []
+    for f in orc['fails']:
+        if f['prop'] != prop:
+            continue
+        viol.append(dict(panel=f['panel'], site=f['op'], clause=f['clause'],
+                         detail="real trace of %s (case %s, call #%d, features %s) judged by the extracted observer" % (f['op'], f['case'], f['opidx'], f['feat']),
+                         replay=dict(kind='oracle', panel=f['panel'], feat=f['feat'], case=f['case'], op_index=f['opidx'], op=f['op'],
+                                     clause=f['clause'], script=oracle_mod.case_text(f['script_path'], f['case']))))
+    return viol
+
+def wire_check(prop, tier, seed, t0, assumptions, extra_viol=(), extra_cov=None, suites=None, corr_filter=None):
+    projs, ops, tie = WIRE[prop]
+    proof = proof_status(['Properties/%s.v' % prop], clean=(tier == 'thorough'))
+    ks = vlib.known_sync_problem()
+    if ks:
+        proof['ok'] = False
+        proof['problems'].append(ks)
+    run = corr_run(suites or suites_for(tier), seed, tier)
+    orc = vlib.oracle_run('hist2' if tier == 'thorough' else 'hist1', seed, tier)
+    viol = list(extra_viol) + oracle_violations(prop, orc)
+    flagged = {(v['panel'], v['site']) for v in viol}
+    for v in corr_violations(prop, run['mismatches'], projs, ops=ops):
+        if corr_filter and not corr_filter(v):
+            continue
+        viol.append(v)
+    if not proof['ok']:
+        viol.append(proof_violation(prop, proof))
+    for e in (run['errors'] + orc['errors'])[:3]:
+        viol.append(dict(panel='*', site='harness', clause='run-error', no_input=True, detail=e[:600], replay=dict(kind='error', text=e[:2000])))
+    cov = base_coverage(run)
+    relevant = sum(1 for t, cid, head, opsl in iter_real(run) for o in opsl if ops is None or o[1] in ops) if ops else cov['evaluations']
+    cov['ops_relevant_to_property'] = relevant
+    cov['oracle_histories'] = orc['cases']
+    cov['oracle_ops_judged'] = orc['ops']
+    cov['traces_validated_against_impl'] = cov['evaluations'] + orc['ops']
+    cov['distinct_nontrivial'] = relevant
+    cov['rule'] = ("correspondence: every op of every generated script (27 drivers x 3 feature sets) run on the real crate and on the extracted model, compared on the "
+                   + tie + "; oracle: every history of <= %d macro steps of the panel alphabet followed by a probe sequence, run on the real crate and judged by the extracted Coq observer (the function the theorems are about); distinct_nontrivial = ops the property's projection applies to" % (2 if tier == 'thorough' else 1))
+    if extra_cov:
+        cov.update(extra_cov)
+    return finish(prop, tier, seed, t0, proof, viol, cov, assumptions)
+
+STD_ASSUME = ["theorems are about the driver models (Drv/*.v) run against the controller specification (Ctl/Ctl.v) under the observer of Spec/Oracle.v; tie = correspondence on the property's projection + the same observer run on real traces",
+              "history alphabet = ps_alpha of Spec/Specs.v (canonical + boundary arguments); history LENGTH is unbounded (closed reachable set), argument values are those of the alphabet",
+              "controller semantics, busy polarity, deep-sleep codes and command tables are specifications written from datasheet knowledge (DESIGN.md App. B)"]
+
+def check_C02(tier, seed, t0):
+    return wire_check('C02', tier, seed, t0, STD_ASSUME)
+def check_C07(tier, seed, t0):
+    return wire_check('C07', tier, seed, t0, STD_ASSUME)
+def check_C08(tier, seed, t0):
+    return wire_check('C08', tier, seed, t0, STD_ASSUME)
+def check_C09(tier, seed, t0):
+    return wire_check('C09', tier, seed, t0, STD_ASSUME)
+def check_C17(tier, seed, t0):
+    return wire_check('C17', tier, seed, t0, STD_ASSUME)
+def check_C18(tier, seed, t0):
+    return wire_check('C18', tier, seed, t0, STD_ASSUME)
+def check_C01(tier, seed, t0):
+    return wire_check('C01', tier, seed, t0, STD_ASSUME + ["12.48in driver: see C15"])
+def check_C06(tier, seed, t0):
+    return wire_check('C06', tier, seed, t0, STD_ASSUME + ["12.48in partial writes: see C15"])
+def check_C05(tier, seed, t0):
+    return wire_check('C05', tier, seed, t0, STD_ASSUME + ["real time is abstracted to poll counts (virtual clock of the mocks)"])
+
+def check_C11(tier, seed, t0):
+    return wire_check('C11', tier, seed, t0, STD_ASSUME + ["virtual clock: delays are the DelayNs calls the mocks record; real time is outside the model",
+                                                          "12.48in reset: see C15 (pins) and the big correspondence"])
+
+# ---------------------------------------------------------------------------------------------- C12
+def scribble_violations(seed, tier):
+    """hist histories on the REAL crate twice: buffers left intact / every buffer overwritten as soon as the call that
+    borrowed it returns; compared transfer by transfer"""
+    import subprocess
+    from concurrent.futures import ThreadPoolExecutor
+    hexe, err = corr.build_harness('v3')
+    if not hexe:
+        return [dict(panel='*', site='harness', clause='build-failed', no_input=True, detail=err[-800:], replay=dict(kind='build'))], 0, 0
+    suite = 'hist2' if tier == 'thorough' else 'hist1'
+    odir = os.path.join(vlib.WORK, 'scribble')
+    os.makedirs(odir, exist_ok=True)
+    def work(p):
+        rng = gen.Rng(seed * 1000003 + corr.hash_name(p.name + suite))
+        cases = gen.suite(p, suite, rng)
+        out = []
+        for flag in (0, 1):
+            path = os.path.join(odir, "%s-%d.script" % (p.name, flag))
+            open(path, 'w').write('\n'.join(c.replace('scribble=0', 'scribble=%d' % flag) for c in cases) + '\n')
+            r = subprocess.run([hexe, 'run', path], stdout=subprocess.PIPE, stderr=subprocess.PIPE, text=True, env=dict(corr.ENV, EPD_FEAT='v3'))
+            out.append(corr.parse_out(r.stdout))
+        viol = []
+        nops = 0
+        A, B = out
+        for cid, ops in A.items():
+            for k, op in enumerate(ops):
+                nops += 1
+                bop = B.get(cid, [])
+                other = bop[k] if k < len(bop) else None
+                if other is None or corr.project(op[2], 'frames') != corr.project(other[2], 'frames') or op[3] != other[3]:
+                    viol.append(dict(panel=p.name, site=op[1], clause='scribble-changes-transfer',
+                                     detail="call #%d of case %s transmits different bytes when earlier buffers are overwritten after their call returned" % (op[0], cid),
+                                     replay=dict(kind='scribble', panel=p.name, case=cid, op_index=op[0], op=op[1],
+                                                 script=vlib.case_script(dict(script=os.path.join(odir, "%s-1.script" % p.name)), cid))))
+                    break
+        return viol, nops, len(cases)
+    viol, nops, ncases = [], 0, 0
+    from panels import PANELS
+    with ThreadPoolExecutor(max_workers=16) as ex:
+        for v, n, c in ex.map(work, PANELS):
+            viol += v
+            nops += n
+            ncases += c
+    return viol, nops, ncases
+
+def check_C12(tier, seed, t0):
+    sv, nops, ncases = scribble_violations(seed, tier)
+    WIRE['C12'] = (['frames'], None, "frames projection (contents included) of every operation, with and without scribbling")
+    return wire_check('C12', tier, seed, t0, STD_ASSUME + ["a retained pointer is modelled as a reference to the earlier call's bytes; what freed memory really contains is outside the model",
+                                                          "scribble runs: the harness overwrites every caller buffer as soon as the borrowing call returns (the arena keeps the allocation alive)"],
+                      extra_viol=sv, extra_cov=dict(scribble_histories=ncases, scribble_ops_compared=nops),
+                      corr_filter=lambda v: False)
+
+# ---------------------------------------------------------------------------------------------- C04
+def fault_oracle(run):
+    """C04 on the REAL traces of the fault suites: the failing transfer is the last SPI activity of the call, the call
+    returns the error (no panic), new returns Err."""
+    viol, n = [], 0
+    for t, cid, head, ops in iter_real(run, suites=('fault', 'faultdense')):
+        for (i, name, lines, res) in ops:
+            failed_at = None
+            for j, l in enumerate(lines):
+                if l.startswith('X1') or l.startswith('X0') and False:
+                    failed_at = j
+                    break
+            if failed_at is None:
+                continue
+            n += 1
+            clause = None
+            later = [l for l in lines[failed_at + 1:] if l.split(' ')[0] in ('C', 'CL', 'Z', 'X0', 'X1', 'Xu', 'W', 'WX', 'S')]
+            if res is None or not res.startswith('ERR'):
+                clause = 'failure-not-returned:' + str(res).split(' ')[0]
+            elif later:
+                clause = 'transfer-after-failure'
+            if clause:
+                viol.append(dict(panel=t['panel'], site=name, clause=clause, detail="%s: %s (after the failed transfer: %s)" % (head, res, later[:2]),
+                                 replay=dict(kind='trace', panel=t['panel'], feat=t['feat'], op_index=i, script=case_script(t, cid))))
+    return viol, n
+
+def recovery_oracle(run, seed):
+    """after a failed call: wake_up; update_frame; display_frame must put the same frames on the wire as on a driver
+    where the failing call was never made (reference run of the same suffix after `new`)"""
+    import subprocess
+    viol, n = [], 0
+    hexes = {}
+    refs = {}
+    for t, cid, head, ops in iter_real(run, suites=('fault', 'faultdense')):
+        if len(ops) < 4 or [o[1] for o in ops[-3:]] != ['wake_up', 'update_frame', 'display_frame']:
+            continue
+        if not any(l.startswith('X1') for o in ops[:-3] for l in o[2]):
+            continue
+        if ops[0][3] is None or not ops[0][3].startswith('OK'):
+            continue        # the constructor failed: there is no driver to recover
+        if ops[-4][1] in ('set_lut', 'set_refresh', 'set_border_color', 'set_background_color'):
+            continue        # a failed SETTING change may or may not have taken effect: no unique never-failed reference
+        key = (t['panel'], t['feat'])
+        if key not in refs:
+            if t['feat'] not in hexes:
+                hexes[t['feat']] = corr.build_harness(t['feat'])[0]
+            sc = case_script(t, cid).split('\n')
+            ref_lines = [sc[0].replace(sc[0].split(' ')[1], 'ref', 1)]
+            ref_lines[0] = ' '.join(('fault=none' if x.startswith('fault=') else x) for x in ref_lines[0].split(' '))
+            ref_lines += ['new'] + sc[-4:-1] + ['end']
+            path = os.path.join(vlib.WORK, 'c04-ref-%s-%s.script' % key)
+            open(path, 'w').write('\n'.join(ref_lines) + '\n')
+            r = subprocess.run([hexes[t['feat']], 'run', path], stdout=subprocess.PIPE, stderr=subprocess.PIPE, text=True, env=dict(corr.ENV, EPD_FEAT=t['feat']))
+            R = corr.parse_out(r.stdout)
+            refs[key] = [o for o in list(R.values())[0][1:]]
+        n += 1
+        ref = refs[key]
+        for k in range(3):
+            a, b = ops[-3 + k], ref[k] if k < len(ref) else None
+            fam = corr.BY_NAME[t['panel']].family
+            def st(lines):
+                # memory and power state: addressing + power/configuration commands + RAM frames with their contents
+                ram = []
+                for e in corr.frames_of(lines):
+                    if e[0] == 'F' and e[1] in corr.FAM[fam]['plane']:
+                        ram += ['C %02x' % e[1]] + e[2]
+                return corr.sem_project(lines, 'addr', fam), corr.sem_project(lines, 'power', fam), ram
+            if b is None or st(a[2]) != st(b[2]) or a[3] != b[3]:
+                fd = corr.first_diff(sum(st(a[2]), []), sum(st(b[2]), [])) if b else None
+                viol.append(dict(panel=t['panel'], site=ops[-4][1] if len(ops) >= 4 else '?', clause='recovery-differs:' + a[1],
+                                 detail="%s: after the failure, %s differs from the never-failed driver: %s" % (head, a[1], fd),
+                                 replay=dict(kind='trace', panel=t['panel'], feat=t['feat'], script=case_script(t, cid))))
+                break
+    return viol, n
+
+def check_C04(tier, seed, t0):
+    proof = proof_status(['Properties/C04.v'], clean=(tier == 'thorough'))
+    suites = ['fault'] + (['faultdense'] if tier == 'thorough' else [])
+    run = corr_run(suites_for(tier), seed, tier)
+    v1, n1 = fault_oracle(run)
+    v2, n2 = recovery_oracle(run, seed)
+    viol = v1 + v2
+    flagged = {(v['panel'], v['site']) for v in viol}
+    fault_mism = [m for m in run['mismatches'] if m['suite'] in ('fault', 'faultdense')]
+    for v in corr_violations('C04', fault_mism, ['frames']):
+        viol.append(v)
+    if not proof['ok']:
+        viol.append(proof_violation('C04', proof))
+    cov = base_coverage(run)
+    cov['faulted_calls_checked'] = n1
+    cov['recovery_suffixes_checked'] = n2
+    cov['distinct_nontrivial'] = n1
+    cov['rule'] = ("fault suites: for every op of every panel, the k-th SPI transfer of the call (or of new) fails, for k at every command/parameter "
+                   "transfer, both ends and sampled interior points of each bulk burst; followed by wake_up; update_frame; display_frame. Compared with the "
+                   "model (results + frames); on the real traces: the failed transfer is the last SPI activity, the call returns Err, the recovery "
+                   "suffix equals that of a never-failed driver. distinct_nontrivial = calls in which the injected failure was actually reached")
+    return finish('C04', tier, seed, t0, proof, viol, cov,
+                  ["theorems: fail-stop of Hal.expand for ALL traces and fault indices (HalProofs.expand_failstop) and the recovery theorem over every driver-field valuation the models can be left in (Proof/Recover.v)",
+                   "12.48in: chip selects left asserted after a failed write are a known finding (C15_release_after_error_refuted)"])
+
+# ---------------------------------------------------------------------------------------------- C15 (12.48in)
+BIG_RECTS = {'s2': (0, 0, 648, 492), 'm2': (648, 0, 656, 492), 'm1': (0, 492, 648, 492), 's1': (648, 492, 656, 492)}
+BIG_MIRROR = {'s2': True, 'm2': True, 'm1': False, 's1': False}
+
+def big_expected_block(chip, win):
+    x, y, w, h = win
+    rx, ry, rw, rh = BIG_RECTS[chip]
+    ix0, ix1 = max(x, rx), min(x + w, rx + rw)
+    iy0, iy1 = max(y, ry), min(y + h, ry + rh)
+    if ix1 <= ix0 or iy1 <= iy0:
+        return [0, 0, 0xFF, 0xFF, 0, 0, 0xFF, 0xFF, 1]
+    lx, ly, lw, lh = ix0 - rx, iy0 - ry, ix1 - ix0, iy1 - iy0
+    sx = rw - lx - lw if BIG_MIRROR[chip] else lx
+    ex, ey = sx + lw - 1, ly + lh - 1
+    return [sx >> 8, sx & 255, ex >> 8, ex & 255, ly >> 8, ly & 255, ey >> 8, ey & 255, 1]
+
+def big_oracle(script_text, real_text):
+    """C15 clauses evaluated on the REAL traces of the 12.48in driver"""
+    viol = []
+    R = corr.parse_out(real_text)
+    heads, opsrc = {}, {}
+    cur = None
+    for line in script_text.split('\n'):
+        if line.startswith('case '):
+            cur = line.split(' ')[1]
+            heads[cur] = line
+            opsrc[cur] = []
+        elif cur and line and line != 'end':
+            opsrc[cur].append(line.split(' '))
+    nops = 0
+    for cid, ops in R.items():
+        pins = {}
+        for (i, name, lines, res) in ops:
+            nops += 1
+            src = opsrc.get(cid, [])
+            toks = src[i] if i < len(src) else [name]
+            touched = False
+            last_cmd = {}
+            blocks = {}
+            def bad(clause, detail):
+                viol.append(dict(panel='epd12in48b_v2', site=name, clause=clause, detail="%s: %s" % (heads.get(cid, cid), detail),
+                                 replay=dict(kind='trace', panel='epd12in48b_v2', feat='v3', op_index=i,
+                                             script='\n'.join([heads.get(cid, 'case x')] + [' '.join(t) for t in src] + ['end']))))
+            for l in lines:
+                t = l.split(' ')
+                if t[0] == 'N':
+                    pins[t[1]] = int(t[2])
+                    touched = True
+                elif t[0] in ('W', 'WX'):
+                    cs = {c: pins.get(c + '_cs') for c in ('m1', 's1', 'm2', 's2')}
+                    dcs = (pins.get('m1s1_dc'), pins.get('m2s2_dc'))
+                    if name == 'get_status':
+                        # drives one chip select and that pair's D/C by hand; the other lines keep whatever the
+                        # previous call left (released, by the end-of-call clause)
+                        if not any(v == 0 for v in cs.values()):
+                            bad('transfer-with-no-chip-selected', l[:60])
+                        continue
+                    if None in cs.values() or None in dcs:
+                        bad('transfer-before-lines-driven', l[:60])
+                        continue
+                    sel = [c for c in cs if cs[c] == 0]
+                    if name != 'get_status':
+                        if dcs[0] != dcs[1]:
+                            bad('dc-lines-differ', l[:60])
+                        if dcs[0] == 0 and int(t[1]) != 1:
+                            bad('multi-byte-transfer-with-dc-low', l[:60])
+                        if not sel:
+                            bad('transfer-with-no-chip-selected', l[:60])
+                    if t[0] == 'W' and dcs[0] == 0 and len(t) > 4:
+                        for c in sel:
+                            last_cmd[c] = int(t[4][:2], 16)
+                    elif t[0] == 'W' and dcs[0] == 1:
+                        if name.startswith('write_data') and all(last_cmd.get(c) in (0x10, 0x13) for c in sel) and len(sel) != 1:
+                            bad('pixel-data-to-several-chips', "%s selected=%s" % (l[:40], sel))
+                        for c in sel:
+                            if last_cmd.get(c) == 0x90 and len(t) > 4:
+                                blocks[c] = [int(t[4][k:k + 2], 16) for k in range(0, len(t[4]), 2)]
+            okres = res is not None and res.startswith('OK')
+            if touched and name != 'new':
+                released = all(pins.get(c + '_cs') == 1 for c in ('m1', 's1', 'm2', 's2')) and pins.get('m1s1_dc') == 0 and pins.get('m2s2_dc') == 0
+                if not released:
+                    if okres:
+                        bad('lines-not-released', str({k: v for k, v in pins.items() if 'rst' not in k}))
+                    elif res is not None and res.startswith('ERR'):
+                        bad('lines-not-released-after-error', str({k: v for k, v in pins.items() if 'rst' not in k}))
+            if okres and name in ('write_data1_partial', 'write_data2_partial', 'refresh_display_partial', 'begin_refresh_display_partial'):
+                try:
+                    wn = tuple(int(v) for v in toks[-4:])
+                except ValueError:
+                    wn = None
+                if wn and wn[0] % 8 == 0 and wn[2] % 8 == 0 and wn[2] > 0 and wn[3] > 0 and wn[0] + wn[2] <= 1304 and wn[1] + wn[3] <= 984:
+                    for c in ('s2', 'm2', 'm1', 's1'):
+                        exp = big_expected_block(c, wn)
+                        if blocks.get(c) != exp:
+                            bad('partial-window-block', "chip %s window %s: sent %s, intersection needs %s" % (c, wn, blocks.get(c), exp))
+    return viol, nops
+
+def check_C15(tier, seed, t0):
+    import subprocess
+    from panels import BIG
+    proof = proof_status(['Properties/C15.v'], clean=(tier == 'thorough'))
+    viol = []
+    cov = dict(evaluations=0, correspondence_mismatches=0, input_distribution={}, samples=[], harness_or_model_errors=[])
+    hexe, err = corr.build_harness('v3')
+    mexe, log = corr.build_model()
+    if not hexe or not mexe:
+        viol.append(dict(panel='epd12in48b_v2', site='build', clause='build-failed', no_input=True, detail=(err + log)[-1200:], replay=dict(kind='build')))
+    else:
+        suites = ['basic', 'chain', 'env', 'fault', 'rand'] + (['pairs', 'faultdense'] if tier == 'thorough' else [])
+        total, mism, counts, errs = corr.run_suites([BIG], 'v3', suites, seed, hexe, mexe, tag='c15')
+        cov['evaluations'] = total
+        cov['correspondence_mismatches'] = len(mism)
+        cov['input_distribution'] = {"%s" % s: dict(cases=c[0], ops=c[1]) for (pn, s), c in counts.items()}
+        cov['harness_or_model_errors'] = errs[:5]
+        norc = 0
+        import glob as _g
+        for sp in sorted(_g.glob(os.path.join(vlib.WORK, 'c15-epd12in48b_v2-v3-*.script'))):
+            txt = open(sp).read()
+            r = subprocess.run([hexe, 'run', sp], stdout=subprocess.PIPE, stderr=subprocess.PIPE, text=True, env=dict(corr.ENV, EPD_FEAT='v3'))
+            v, n = big_oracle(txt, r.stdout)
+            viol += v
+            norc += n
+            if not cov['samples']:
+                cov['samples'] = [txt.split('\nend\n')[0][:300]]
+        cov['oracle_ops_scanned'] = norc
+        flagged = {v['site'] for v in viol}
+        for m in mism:
+            viol.append(dict(panel='epd12in48b_v2', site=m.opname, clause='correspondence-wire', no_input=True,
+                             detail="model and implementation differ (real %s, model %s); first differing line: %s" % (m.rres, m.mres, corr.first_diff(m.real, m.model)),
+                             replay=dict(kind='correspondence', panel='epd12in48b_v2', case=m.cid, op_index=m.opidx, op=m.opname, script=m.script)))
+        for e in errs[:3]:
+            viol.append(dict(panel='epd12in48b_v2', site='harness', clause='run-error', no_input=True, detail=e[:500], replay=dict(kind='error')))
+    if not proof['ok']:
+        viol.append(proof_violation('C15', proof))
+    cov['traces_validated_against_impl'] = cov['evaluations']
+    cov['distinct_nontrivial'] = cov['evaluations']
+    cov['rule'] = ("every op of every generated 12.48in script (all 16+ mode configurations, full frames of 1..984 rows, good/bad/seam-straddling windows with 1-row, k-row and "
+                   "full buffers, LUT uploads, refresh/power ops, busy streams on the four inputs, write faults at every command and sampled data writes) run on the real "
+                   "driver (recording SpiBus + 8 output pins + 4 inputs) and on the extracted model, compared event by event; the pin/selection/window-block clauses are also "
+                   "evaluated directly on the real traces")
+    return finish('C15', tier, seed, t0, proof, viol, cov,
+                  ["theorems are about Big/Model.v (transcription of src/epd12in48b_v2/mod.rs) for ALL aligned windows inside the panel, all row counts, all entry control states; tie = event-level correspondence",
+                   "sub-display rectangles and the mirrored X scan of the upper pair are taken from the driver's own constants (vendor-derived), not from a datasheet"])
